@@ -1,6 +1,7 @@
 """C01 Decompile then recompile reproduces the binary bit-for-bit (structural necessary conditions)."""
 import re
-from common import Report
+from common import Report, Broken
+from facts import MissingAnchor
 from facts import hir_walk, op_local, op_place, place_local, place_proj
 from rules import arms, flow, codec
 from rules.visit import variant_alternatives
@@ -274,6 +275,99 @@ def run(db, tier):
         need = {"plain_args", "outputs", "jump", "sub_id"}
         rep.check(need <= flds, "R-JUMP-ARGS", "%s|uses-all-abi-parts" % side, f.loc, "plain_args, outputs, jump and sub_id are all consumed",
                   "%s side ignores %s of IntrinsicInstrAbiParts" % (side, sorted(need - flds)))
+    # ---------------- R-FILE-ORDER: MSG scripts are kept in file order
+    rep.rule("R-FILE-ORDER", "read_msg builds the script list by walking the script offsets in ascending order (an ordered set), so that the "
+                             "compiler, which writes scripts in list order, reproduces the original layout; the order of the script TABLE "
+                             "(which may mention scripts in any order, repeatedly) must not decide it")
+    rm = db.fn("formats::msg::read_msg")
+    rep.fn(rm)
+    srcs = []
+    for bi, t in rm.calls():
+        ga = t.get("ga") or []
+        if t.get("f", "").endswith(("collect_with_recovery", "Iterator::collect")) and len(ga) > 1 and "llir::RawScript" in ga[1]:
+            srcs.append((t["ln"], ga[0]))
+    if not srcs:
+        raise MissingAnchor("the collect() that builds MsgFile.scripts in read_msg")
+    for k_, (ln, ty) in enumerate(srcs):
+        if "collections::btree::" in ty:
+            rep.ok("R-FILE-ORDER", "read_msg|scripts-%d" % (k_ + 1), "%s:%d" % (rm.file, ln), "iterates " + ty[:120])
+        elif "indexmap::" in ty or "collections::hash::" in ty or "slice::iter::Iter<'_, formats::msg::RawScriptTableEntry>" in ty or "IntoIter<formats::msg::RawScriptTableEntry>" in ty:
+            rep.bad("R-FILE-ORDER", "read_msg|scripts-%d" % (k_ + 1), "%s:%d" % (rm.file, ln),
+                    "the script list is built in the iteration order of %s, i.e. table / first-mention order, not file-offset order: "
+                    "recompiling lays the scripts out differently from the original file" % ty[:140])
+        else:
+            raise Broken("R-FILE-ORDER: cannot classify the iteration source %s" % ty[:160])
+    # ---------------- R-ENTRY-LAYOUT: ANM entry header reader / writer / patch-offset table
+    rep.rule("R-ENTRY-LAYOUT", "for both ANM entry-header layouts: read_header reads the same sequence of field widths that write_header writes, "
+                               "and each offset_to_*() equals the byte position of that field in write_header under the SAME layout predicate "
+                               "(the offsets are used to patch the header after the entry body is written)")
+    from rules import hirq
+    FF = "formats::anm::read_write::FileFormat::"
+    wh = db.fn(FF + "write_header")
+    rh = db.fn(FF + "read_header")
+    rep.fn(wh)
+    rep.fn(rh)
+    WIDTH = {"u8": 1, "i8": 1, "u16": 2, "i16": 2, "u32": 4, "i32": 4, "f32": 4}
+
+    def layout_if(fn_):
+        for n in hir_walk(fn_.hir):
+            if n.get("k") == "If" and n["c"].get("k") == "MCall" and (n["c"].get("f") or "").endswith("Version::is_old_header") and "el" in n:
+                return n
+        raise MissingAnchor("`if self.version.is_old_header()` in " + fn_.id)
+
+    def seq(fn_, branch, prefix):
+        out = []
+        for c in hirq.call_seq(branch):
+            m = re.match(r"^io::Bin(Write|Read)::" + prefix + r"_(u8|i8|u16|i16|u32|i32|f32)$", c["f"])
+            if m:
+                flds = [v for t_, v in hirq.features(fn_, c["a"][0], {}) if t_ == "field"] if c.get("a") else []
+                out.append((WIDTH[m.group(2)], flds[0] if len(flds) == 1 else None))
+            elif re.match(r"^io::Bin(Write|Read)::" + prefix + r"_", c["f"]):
+                out.append((None, None))      # a bulk primitive (padding): stop the positional comparison here
+        return out
+    wi, ri = layout_if(wh), layout_if(rh)
+    layouts = {}
+    for name, wb, rb in (("old", wi["t"], ri["t"]), ("new", wi["el"], ri["el"])):
+        ws, rs = seq(wh, wb, "write"), seq(rh, rb, "read")
+        n_cmp = 0
+        bad = None
+        for i, (w_, r_) in enumerate(zip(ws, rs)):
+            if w_[0] is None or r_[0] is None:
+                break
+            n_cmp += 1
+            if w_[0] != r_[0] and bad is None:
+                bad = "field #%d: write_header writes %d bytes%s, read_header reads %d" % (i + 1, w_[0], " (%s)" % w_[1] if w_[1] else "", r_[0])
+        rep.check(bad is None and n_cmp >= 14, "R-ENTRY-LAYOUT", "%s-header|read/write widths" % name, wh.loc,
+                  "%d fields, widths agree position by position" % n_cmp, bad or "only %d comparable fields found" % n_cmp)
+        pos, off = {}, 0
+        for w_, fld in ws:
+            if w_ is None:
+                break
+            if fld:
+                pos[fld] = off
+            off += w_
+        layouts[name] = pos
+    OFFSET_FNS = {"offset_to_next_offset": "next_offset", "offset_to_path_offset": "name_offset",
+                  "offset_to_path_2_offset": "secondary_name_offset", "offset_to_thtx_offset": "thtx_offset"}
+    for fname, fld in sorted(OFFSET_FNS.items()):
+        of = db.fn(FF + fname)
+        rep.fn(of)
+        try:
+            oi = layout_if(of)
+        except MissingAnchor:
+            rep.bad("R-ENTRY-LAYOUT", fname + "|predicate", of.loc,
+                    "%s() does not branch on is_old_header(), the predicate that selects the header layout in write_header/read_header: "
+                    "for some versions the %s field is written/read but never patched (or patched at the wrong place)" % (fname, fld))
+            continue
+        for name, br in (("old", oi["t"]), ("new", oi["el"])):
+            fe = hirq.features(of, br, {})
+            lits = [v for t_, v in fe if t_ == "lit"]
+            is_none = hirq.has_ctor(fe, "Option::None")
+            want = layouts[name].get(fld)
+            got = int(lits[0], 0) if len(lits) == 1 and re.match(r"^(0x[0-9a-fA-F]+|\d+)$", lits[0]) else None
+            ok = (want is None and is_none) or (want is not None and got == want)
+            rep.check(ok, "R-ENTRY-LAYOUT", "%s|%s" % (fname, name), of.loc, "%s header: %s at byte %s" % (name, fld, want),
+                      "%s header: write_header puts %s at byte %s but %s() says %s" % (name, fld, want, fname, "None" if is_none else got))
     return rep
 
 
